@@ -177,7 +177,7 @@ static void set_input(int id) {
 static void alphabet(int full) { nops = 0; for (int a = 0; a < 4; a++) for (int k = 0; k < 5; k++) if (full || k == 0 || k == 1 || k == 4) ops[nops++] = a << 8 | k; for (int v = 0; v < 3; v++) ops[nops++] = OP_UPD << 8 | v; ops[nops++] = OP_RUN1 << 8 | 2; ops[nops++] = OP_RUN1 << 8 | 4; }
 
 int main(int argc, char **argv) {
-	h_init(); h_set_init(&states, 1 << 14); if (argc < 5) return 2;
+	h_init(); h_watchdog(5, 12);	/* 60 s of CPU inside one element = the call under test does not return */ h_set_init(&states, 1 << 14); if (argc < 5) return 2;
 	if (!strcmp(argv[1], "one")) { /* replay: config outchunk input history */
 		for (int c = 0; c < NCFG; c++) if (!strcmp(CFG[c].name, argv[2])) CF = &CFG[c]; if (!CF) return 2; outchunk = atoi(argv[3]); set_input(!strcmp(argv[4], "abbabaab-periodic") ? 0 : !strcmp(argv[4], "sigma2-mixed") ? 1 : 2);
 		int h[32], n = 0; char *p = argc > 5 ? argv[5] : ""; while (*p && n < 32) { char nm[32]; char arg[32]; int used = 0; if (sscanf(p, " %31[^(](%31[^)])%n", nm, arg, &used) < 2) break; p += used;
